@@ -7,7 +7,7 @@ tier = os.environ.get("TIER", "quick")
 for sid in sys.argv[1:]:
     mp = f"{root}/seeded/{sid}/meta.json"
     m = json.load(open(mp))
-    prop = m["breaks_property"]
+    prop = m.get("detected_by", m["breaks_property"])
     r = subprocess.run([f"{root}/bin/vcheck", "run", prop, "--tier", tier, "--patch", f"{root}/seeded/{sid}/patch.diff"],
                        cwd=root, capture_output=True, text=True)
     out = r.stdout + r.stderr
